@@ -99,7 +99,7 @@ def gen_cond(rng, names, depth=0):
 
 # ------------------------------------------------------------------ generator
 def gen_desc(rng, n=None):
-    n = n or rng.randint(4, 8)
+    n = n or rng.randint(5, 9)
     names = ["r%d" % i for i in range(n)]
     allv = GVARS + LVARS
     classes = {}
@@ -313,82 +313,15 @@ def sync_project(desc, path, touch=()):
 
 
 # ------------------------------------------------------------------ running
-class Server:
-    """one fork server (props/c04_dump.py --server) of the repository under test"""
-    def __init__(self, hashseed):
-        self.p = subprocess.Popen(["/venv/bin/python", DUMP, "--server"], stdin=subprocess.PIPE, stdout=subprocess.PIPE,
-                                  stderr=subprocess.DEVNULL, env=bob_env(None, hashseed), text=True, bufsize=1)
-
-    def request(self, argv, timeout):
-        killed = []
-
-        def kill():
-            killed.append(1)
-            try:
-                self.p.kill()
-            except OSError:
-                pass
-        t = threading.Timer(timeout, kill)
-        t.start()
-        try:
-            self.p.stdin.write(json.dumps({"argv": argv}) + "\n")
-            self.p.stdin.flush()
-            line = self.p.stdout.readline()
-        except (OSError, ValueError):
-            line = ""
-        finally:
-            t.cancel()
-        if killed:
-            return None, "timeout"
-        if not line:
-            return None, "server-died"
-        return line, None
-
+class Pool:          # kept for the callers' close(); every dump is a fresh interpreter process
     def close(self):
-        try:
-            self.p.stdin.close()
-            self.p.wait(timeout=5)
-        except Exception:
-            try:
-                self.p.kill()
-            except OSError:
-                pass
-
-
-class Pool:
-    def __init__(self):
-        self.local = threading.local()
-        self.all = []
-        self.lock = threading.Lock()
-
-    def get(self, hashseed):
-        d = getattr(self.local, "servers", None)
-        if d is None:
-            d = self.local.servers = {}
-        s = d.get(hashseed)
-        if s is None or s.p.poll() is not None:
-            s = d[hashseed] = Server(hashseed)
-            with self.lock:
-                self.all.append(s)
-        return s
-
-    def drop(self, hashseed):
-        d = getattr(self.local, "servers", {})
-        s = d.pop(hashseed, None)
-        if s is not None:
-            s.close()
-
-    def close(self):
-        with self.lock:
-            for s in self.all:
-                s.close()
-            self.all = []
+        pass
 
 
 POOL = Pool()
 
 
-def run_dump(path, state, extra=(), hashseed="0", dev=False, memo=False, timeout=240):
+def run_dump(path, state, extra=(), hashseed="0", dev=False, memo=False, timeout=300):
     argv = [path] + ["-D" + d for d in state.get("defines", [])]
     if state.get("cfg"):
         argv += ["-c", "cfg"]
@@ -401,17 +334,22 @@ def run_dump(path, state, extra=(), hashseed="0", dev=False, memo=False, timeout
     for q in QUERIES:
         argv += ["--query", q]
     argv += list(extra)
-    for attempt in range(3):
-        line, err = POOL.get(hashseed).request(argv, timeout)
-        if not err:
-            break
-        POOL.drop(hashseed)
-    if err:
-        return {"infra": err}
-    try:
-        return json.loads(line)
-    except ValueError:
-        return {"error": "dump-garbled", "slogan": line[-500:]}
+    err = None
+    for attempt in range(2):
+        try:
+            r = subprocess.run(["/venv/bin/python", DUMP] + argv, env=bob_env(None, hashseed), stdout=subprocess.PIPE,
+                               stderr=subprocess.PIPE, timeout=timeout, text=True)
+        except subprocess.TimeoutExpired:
+            err = "timeout"
+            continue
+        if r.returncode != 0:
+            last = [l for l in (r.stderr or "").strip().split("\n") if l.strip()]
+            return {"error": "dump-crashed", "slogan": (last[-1] if last else "")[:300]}
+        try:
+            return json.loads(r.stdout.strip().split("\n")[-1])
+        except (ValueError, IndexError):
+            return {"error": "dump-garbled", "slogan": r.stdout[-300:]}
+    return {"infra": err}
 
 
 STEP_FIELDS_A = ("tools", "sandbox", "args", "workspace")   # consequences of tool/sandbox diffs and dependency lists
@@ -487,54 +425,60 @@ def field_class(f):
 
 
 def classes_of(diffs):
-    return sorted(set(field_class(f) for _, f in diffs))
+    cl = sorted(set(field_class(f) for _, f in diffs))
+    for top in ("harness_error", "error", "rootEnv"):     # the rest is a consequence
+        if top in cl:
+            return [top]
+    return cl
 
 
 def classify_merge(cold, plain, diffs):
-    """COLD (memo + merge) differs from PLAIN and the merge is the cause: decide
-    which known class(es) the difference belongs to.  Returns a set of signatures."""
+    """COLD (memo + merge) differs from PLAIN and the merge is the cause (the run with
+    the merge alone disabled equals PLAIN): decide which class the difference belongs to.
+      A  a package with equal result id on both sides differs in its dependency lists /
+         tools / sandbox, or packages below such a package differ (the dependency
+         variants of the merged package are those of the variant calculated first)
+      B  a package with equal result id on both sides differs in metaEnvironment
+    anything else is reported under its own signature."""
     vc, vp = view(cold), view(plain)
+
+    def both(p):
+        return (p, "present") in vc and (p, "present") in vp
+
+    def same_rid(p):
+        return both(p) and vc.get((p, "package.resultId")) == vp.get((p, "package.resultId")) \
+            and vc.get((p, "package.vid")) == vp.get((p, "package.vid"))
+
+    def merged_ancestor(p):
+        while "/" in p:
+            p = p.rsplit("/", 1)[0]
+            if same_rid(p):
+                return p
+        return None
     sigs = set()
-    bad_paths = sorted(set(p for p, _ in diffs))
-    common_bad = []
-    for p in bad_paths:
-        if p == "":
-            # path queries differ as a consequence of a differing tree
-            continue
-        if (p, "present") in vc and (p, "present") in vp:
-            common_bad.append(p)
-    if not common_bad:
-        return {"merge-by-result-id:other:" + ",".join(classes_of(diffs))}
-    for p in common_bad:
-        fields = [f for q, f in diffs if q == p]
-        if vc.get((p, "package.resultId")) != vp.get((p, "package.resultId")) or vc.get((p, "package.vid")) != vp.get((p, "package.vid")):
-            sigs.add("merge-by-result-id:other:ids")
-            continue
-        rest = []
-        for f in fields:
-            if f == "metaEnv":
-                sigs.add(SIG_B)
-            elif f in ("direct", "indirect", "all") or (("." in f) and f.split(".", 1)[1] in STEP_FIELDS_A):
-                sigs.add(SIG_A)
-            else:
-                rest.append(f)
-        if rest:
-            sigs.add("merge-by-result-id:other:" + ",".join(sorted(set(field_class(f) for f in rest))))
-    # packages present on one side only must hang below a package whose dependency list differs
-    for p in bad_paths:
-        if p and not ((p, "present") in vc and (p, "present") in vp):
-            anc = p
-            ok = False
-            while "/" in anc:
-                anc = anc.rsplit("/", 1)[0]
-                if anc in common_bad:
-                    ok = True
-                    break
-            if not ok:
-                sigs.add("merge-by-result-id:other:present")
+    by_path = {}
     for p, f in diffs:
-        if p == "" and not f.startswith("query:"):
-            sigs.add("merge-by-result-id:other:" + field_class(f))
+        by_path.setdefault(p, []).append(f)
+    for p, fields in sorted(by_path.items()):
+        if p == "":
+            for f in fields:
+                if not f.startswith("query:"):
+                    sigs.add("merge-by-result-id:other:" + field_class(f))
+        elif not both(p):
+            sigs.add(SIG_A if merged_ancestor(p) is not None else "merge-by-result-id:other:present")
+        elif same_rid(p):
+            rest = []
+            for f in fields:
+                if f == "metaEnv":
+                    sigs.add(SIG_B)
+                elif f in ("direct", "indirect", "all") or (("." in f) and f.split(".", 1)[1] in STEP_FIELDS_A):
+                    sigs.add(SIG_A)
+                else:
+                    rest.append(f)
+            if rest:
+                sigs.add("merge-by-result-id:other:" + ",".join(sorted(set(field_class(f) for f in rest))))
+        else:
+            sigs.add(SIG_A if merged_ancestor(p) is not None else "merge-by-result-id:other:ids")
     return sigs
 
 
@@ -1190,10 +1134,11 @@ def record(ctx, label, hist, results, cases, meta):
             if cfgname == "PLAIN":
                 # the history is irrelevant for in-memory caches: minimise the project state
                 small = step
-                if not label.startswith("corpus") and SHRUNK[0] < ctx.n(2, 10):
+                known = set(k["signature"] for k in ctx.known if k.get("status") == "known")
+                if not label.startswith("corpus") and sig not in known and SHRUNK[0] < ctx.n(2, 4):
                     SHRUNK[0] += 1
                     try:
-                        small = shrink_state(step, sig, budget=ctx.n(25, 80))
+                        small = shrink_state(step, sig, budget=ctx.n(25, 50))
                     except Exception:
                         small = step
                 replay = {"kind": "state", "label": label, "step": small, "dev": dev}
@@ -1225,6 +1170,15 @@ def run(ctx):
         "equalities of package-step variant ids and result ids, touched variable/tool/sandbox sets with values per memo entry; "
         "NOT covered by the model: script texts, SCMs, fingerprints, workspace paths, path queries (oracle only)",
     ]
+    ctx.trusted_base += [
+        "props/c04_dump.py: dumps the package tree through the public Package/Step getters of the repository under test; fork "
+        "server (bob imported once, every dump in a forked child that has parsed nothing yet)",
+        "cache configurations are produced without editing the repository: deleting .bob-* files, PYTHONHASHSEED, "
+        "bob.DEBUG['pkgck'], and two monkey patches in the dump process (PackageMatcher.matches -> False; "
+        "Recipe.__corePackagesById replaced by a dict whose setdefault never reuses); if a patched name disappears the run "
+        "reports a broken tie instead of passing",
+        "harness-side class flattening and root-environment merge for the model input (checked against the real root environment)",
+    ]
     cases, meta = [], []
     try:
         if ctx.replay:
@@ -1238,7 +1192,7 @@ def run(ctx):
         else:
             # corpus first (hand-written nasty cases and the witnesses of known findings), then generated histories
             jobs = []
-            for c in corpus_cases():
+            for c in ([] if os.environ.get("C04_NO_CORPUS") else corpus_cases()):   # (calibration of the generator only)
                 if c.get("kind") == "state":
                     hist = {"steps": [c["step"]], "dev": c.get("dev", False), "kinds": ["corpus"],
                             "extras": {"0": c.get("extras", ["PKGCK", "REPEAT"])}}
@@ -1249,9 +1203,9 @@ def run(ctx):
             n_hist = ctx.n(12, 150)
             length = ctx.n(5, 9)
             n_extras = ctx.n(2, len(EXTRA_POOL))
-            budget = ctx.n(150, 2100)
+            budget = ctx.n(180, 2100)
             for ix in range(n_hist):
-                jobs.append(("gen%d" % ix, gen_history(rng, length), rng.randrange(1 << 30), None, False))
+                jobs.append(("gen%d" % ix, gen_history(rng, length), rng.randrange(1 << 30), None, ix < 3))
             t0 = time.time()
 
             def job(ix):
@@ -1272,7 +1226,7 @@ def run(ctx):
                     else:
                         n0 = len(ctx.violations)
                         record(ctx, label, hist, results, cases, meta)
-                        if always:
+                        if label.startswith("corpus"):
                             ctx.count("corpus-cases")
                             got = set(v["signature"] for v in ctx.violations[n0:])
                             if expect and expect not in got:
